@@ -8,6 +8,7 @@ from ..cfg import structural_guards
 from ..rules import api
 from ..rules import validate
 from ..rules import wiring
+from ..rules import numeric_opts
 
 TECHNIQUE = ('signature conformance of every NumPy call against the installed '
              'library (inspect.signature, nothing executed), clip-polarity and '
@@ -51,6 +52,8 @@ def run(prog, res):
   n += validate.check_dispatch(prog, res, ck, 'weight_reduction')
   res.floor('V2', 2)
   _forwarding(prog, res, ck)
+  numeric_opts.check(prog, res, [prog.function(q) for q in FUNCS])
+  res.floor('N0', 4)
   res.floor('K1', 4)
   res.floor('K2', 4)
   res.floor('W1', 9)
@@ -66,19 +69,37 @@ def _clip_polarity(prog, res, fn):
               and dotted(n.test.left) == bound
               and isinstance(n.test.ops[0], ast.IsNot)
               and is_none(n.test.comparators[0])]
-    if not blocks:
-      raise AnalysisError('%s: no `%s is not None` block' % (fn.qualname,
-                                                             bound))
-    b = blocks[0]
+    body = blocks[0].body if blocks else fn.node.body
+    b = blocks[0] if blocks else fn.node
     clip = app = None
-    for st in b.body:
+    for st in (body if blocks else [n for n in ast.walk(fn.node)
+                                    if isinstance(n, ast.Assign)]):
       if isinstance(st, ast.Assign) and isinstance(st.value, ast.Call):
         ext = prog.ext_name(fn.module, st.value.func)
         args = [dotted(a) for a in st.value.args]
-        if ext in ('np.maximum', 'np.minimum', 'np.clip') and 'values' in args:
+        if ext in ('np.maximum', 'np.minimum') and 'values' in args:
           clip = (ext, args, st)
+        if ext == 'np.clip' and args[:1] == ['values']:
+          kw = {k.arg: dotted(k.value) for k in st.value.keywords}
+          lo = kw.get('a_min', args[1] if len(args) > 1 else None)
+          hi = kw.get('a_max', args[2] if len(args) > 2 else None)
+          # np.clip(values, clip_min, clip_max) applies max with a_min and
+          # min with a_max
+          if bound == 'clip_min' and lo == 'clip_min':
+            clip = ('np.maximum', ['values', 'clip_min'], st)
+          elif bound == 'clip_max' and hi == 'clip_max':
+            clip = ('np.minimum', ['values', 'clip_max'], st)
+          else:
+            clip = ('np.clip(%s,%s)' % (lo, hi), [], st)
         if ext == 'np.append' and args[:1] == ['values']:
           app = (args, st)
+          if len(st.value.args) > 1 and args[1] is None or (
+              len(args) > 1 and args[1] != bound):
+            # appended operand is a local: accept when it derives from bound
+            from ..rules.wiring import FnCtx
+            reads = FnCtx.of(fn).expand_reads(st.value.args[1])
+            if bound in reads:
+              app = (['values', bound], st)
     key = '%s|%s' % (fn.qualname, bound)
     res.check(clip is not None and clip[0] == op and bound in clip[1], 'K1',
               key + '|clip', fn.loc(clip[2] if clip else b),
@@ -104,7 +125,8 @@ def _shape_op(prog, fn, st, arr):
   if tnames == [arr] and isinstance(v, ast.Call):
     ext = prog.ext_name(fn.module, v.func)
     if ext == 'np.append' and dotted(v.args[0]) == arr:
-      return ('append', 1)
+      return ('append', _cardinality(fn, v.args[1] if len(v.args) > 1 else
+                                     None))
     if ext == 'np.add.reduceat' and dotted(v.args[0]) == arr:
       return ('reduceat', dotted(v.args[1]))
   if isinstance(v, ast.Call) and prog.ext_name(fn.module, v.func) == \
@@ -115,6 +137,27 @@ def _shape_op(prog, fn, st, arr):
       return ('unique', names[1] if len(names) > 1 else None)
     return ('unique', None)
   return None
+
+
+def _cardinality(fn, operand):
+  """'one' for a scalar operand, 'seq:<source>' for a sequence-valued one
+  (the number of appended elements is then len(<source>))."""
+  if operand is None:
+    return 'one'
+  if isinstance(operand, ast.Constant) or (
+      dotted(operand) in ('clip_min', 'clip_max')):
+    return 'one'
+  if isinstance(operand, (ast.List, ast.Tuple)):
+    return 'n:%d' % len(operand.elts)
+  if isinstance(operand, ast.Name):
+    return 'seq:%s' % operand.id
+  # [0] * len(x), np.zeros(len(x)), np.zeros_like(x)
+  for n in ast.walk(operand):
+    if isinstance(n, ast.Call) and dotted(n.func) in ('len', 'np.zeros_like',
+                                                      'np.ones_like') and \
+        n.args and isinstance(n.args[0], ast.Name):
+      return 'seq:%s' % n.args[0].id
+  return 'unknown:%s' % norm_text(operand)[:30]
 
 
 def _lockstep(prog, res, fn):
